@@ -356,20 +356,24 @@ Example C08_append_after_tear_nonvacuous :
   load_log (record_append (firstn 120 ex_file) [ex_lib]) = LOk [ex_a1; ex_gen; ex_lib] false.
 Proof. split; [vm_compute; lia|]. repeat split; vm_compute; reflexivity. Qed.
 
-(* cut inside the hash of the third record (byte 145: "...\t12345" of "123456789abcdef"): the
+(* cut inside the hash of the third record (byte 142: "...\t12345" of "123456789abcdef"): the
    interrupted record itself with the truncated hash 0x12345 *)
 Example C08_safe_direction_nonvacuous :
-  fragment_entry (torn_fragment 145 ex_log) = [truncated_hash ex_a2 5] /\
-  load_log (record_append (firstn 145 ex_file) [ex_lib]) =
+  fragment_entry (torn_fragment 142 ex_log) = [truncated_hash ex_a2 5] /\
+  load_log (record_append (firstn 142 ex_file) [ex_lib]) =
   LOk [truncated_hash ex_a2 5; ex_gen; ex_lib] false /\
   e_hash (truncated_hash ex_a2 5) = 74565.
 Proof. repeat split; vm_compute; reflexivity. Qed.
 
-(* a log torn after 14 bytes ("# ninja log v7") is healed by the next session's newline *)
+(* a log torn after 14 bytes ("# ninja log v7") is healed by the next session's newline; torn
+   after 13 bytes ("# ninja log v") sscanf's %d skips the new '\n' and reads the START TIME of the
+   next record as the version (here 7: accepted; with ex_gen's 5: "too old"); shorter: discarded *)
 Example C08_torn_header_healed :
   load_log (record_append (firstn 14 ex_file) [ex_lib]) = LOk [ex_lib] false /\
-  load_log (record_append (firstn 13 ex_file) [ex_lib]) = LDiscard true true.
-Proof. split; vm_compute; reflexivity. Qed.
+  load_log (record_append (firstn 13 ex_file) [ex_lib]) = LOk [ex_lib] false /\
+  load_log (record_append (firstn 13 ex_file) [ex_gen]) = LDiscard true true /\
+  load_log (record_append (firstn 12 ex_file) [ex_lib]) = LDiscard true true.
+Proof. repeat split; vm_compute; reflexivity. Qed.
 
 (* OLD code on the same tear: one merged line, an entry named "9" *)
 Example C08_append_after_tear_old_nonvacuous :
